@@ -610,7 +610,9 @@ pub fn scratch_dir() -> String {
 
 fn run_one(solver: &str, q: &Query, tag: &str) -> (Answer, f64) {
     let t = Instant::now();
-    let path = format!("{}/q_{}_{}.smt2", scratch_dir(), std::process::id(), tag);
+    // unique per process *and* per call: harnesses may run in parallel threads
+    static SEQ: AtomicUsize = AtomicUsize::new(0);
+    let path = format!("{}/q_{}_{}_{}.smt2", scratch_dir(), std::process::id(), SEQ.fetch_add(1, Ordering::SeqCst), tag);
     std::fs::File::create(&path).unwrap().write_all(q.text.as_bytes()).unwrap();
     let out = std::process::Command::new("timeout")
         .arg("-k")
